@@ -8,6 +8,7 @@ next <street> <K> <N> (<H point> <bits>^K)^N       → ok <k> (<mass> <n> (<code
 lookup <street> <K> <N> (<bits>^K)^N               → ok <code>^N | panic
 metric <street> <K> <bits>^(K·K)                   → <n> (<key> ~v)*
 proj <n> (<H>)^n                                   → <n> (<mass> <n> (<code> <count>)*)^n   (Lookup::projections: futures of the classes, in class order)
+prefchain <n> (<H>)^n                              → per class: <label> <k> (<next code> ~dx)^k   (preflop layer: projections → init → lookup → decomp)
 dens <H> <code>                                    → ~v        (Histogram::density)
 vdist <H point> <H centroid>                       → ~v        (Equity::variation of RP.Transport, Float32)
 H = <n> <mass> (<code> <count>)*
@@ -107,6 +108,27 @@ def handle (line : String) : String :=
         -- the i-th class's future is the i-th histogram given; the points are the futures in class order
         let pts := projections (fun i : Nat => futures.getD i Hist.empty) (List.range n)
         s!"{pts.length}" ++ String.join (pts.map showHist)
+      | none => "bad-op"
+    | none => "bad-op"
+  | "prefchain" :: n :: rest =>
+    match nat? n with
+    | some n =>
+      let rec goP : Nat → List String → List Hist → Option (List Hist)
+        | 0, [], acc => some acc.reverse
+        | 0, _, _ => none
+        | k + 1, ts, acc => match parseHist ts with
+          | some (h, ts') => goP k ts' (h :: acc)
+          | none => none
+      match goP n rest [] with
+      | some futures =>
+        let pts := projections (fun i : Nat => futures.getD i Hist.empty) (List.range n)
+        let kmeans := initPref pts
+        let labels := lookupPref (List.range n)
+        let dec := decomp 0 kmeans
+        String.join (labels.map fun il =>
+          match dec.lookup il.2 with
+          | some h => s!" {il.2} {h.n}" ++ String.join (h.counts.map fun e => s!" {e.1} {fmt32 (density h e.1 : F)}")
+          | none => s!" {il.2} missing")
       | none => "bad-op"
     | none => "bad-op"
   | "dens" :: rest =>
